@@ -89,7 +89,22 @@ impl ByteCompiler<'_> {
 
                 let no_throw = self.jump();
                 self.patch_handler(catch_handler);
+
+                // The catch block threw (or the `Exception` opcode above re-threw the empty
+                // exception of a generator `return()`). The pending exception does not survive
+                // a `finally` block that catches something itself, so it is saved in a
+                // register, like in the `try-finally` variants below.
+                let re_throw_handler = self.push_handler();
+                self.bytecode.emit_exception(error.variable());
+                let re_throw_generator = self.register_allocator.alloc();
+                self.bytecode
+                    .emit_store_false(re_throw_generator.variable());
                 self.bytecode.emit_store_true(finally_re_throw.variable());
+                let saved = self.jump();
+                self.patch_handler(re_throw_handler);
+                self.bytecode.emit_store_true(re_throw_generator.variable());
+                self.bytecode.emit_store_true(finally_re_throw.variable());
+                self.patch_jump(saved);
 
                 self.patch_jump(no_throw);
                 self.patch_jump(finally);
@@ -100,10 +115,14 @@ impl ByteCompiler<'_> {
                     .expect("there should be a try block")
                     .flags |= JumpControlInfoFlags::IN_FINALLY;
                 self.compile_finally_stmt(f);
-                self.register_allocator.dealloc(error);
                 let do_not_throw_exit = self.jump_if_false(&finally_re_throw);
+                let is_generator_exit = self.jump_if_true(&re_throw_generator);
+                self.bytecode.emit_throw(error.variable());
+                self.patch_jump(is_generator_exit);
                 self.bytecode.emit_re_throw();
                 self.patch_jump(do_not_throw_exit);
+                self.register_allocator.dealloc(re_throw_generator);
+                self.register_allocator.dealloc(error);
                 self.pop_try_with_finally_control_info(finally_start);
                 self.register_allocator.dealloc(finally_re_throw);
                 self.register_allocator.dealloc(finally_jump_index);
